@@ -3,6 +3,19 @@
 ZSTD = "zstd crate: decompress(compress(x)) = x and context-history independence (exercised, not proved)"
 
 PROPS = {
+    "C06": {
+        "level": "proof",
+        "assumptions": [
+            "Model/Queue.lean mirrors memory_bounded_queue.rs at the granularity of the under-lock events of hook H2; tied by "
+            "replaying the event log of every real run (<= 16 threads, seeded perturbation) through the model: every event "
+            "enabled, every (len, current_size, closed) snapshot equal, every take maximal",
+            "std::sync::Mutex/Condvar as formalised in Model/Queue.lean: mutual exclusion (events totally ordered), wait "
+            "atomically releases and enqueues, notify_one removes one arbitrary waiter if there is one, notify_all removes "
+            "all, spurious wake-ups allowed; BinaryHeap::pop returns a greatest element",
+            "usize arithmetic does not overflow (current_size + size_bytes < 2^64); OS scheduling fairness is outside the model",
+        ],
+        "timeout": {"quick": 600, "thorough": 3000},
+    },
     "C20": {
         "level": "proof",
         "assumptions": [
